@@ -60,6 +60,7 @@ MUTANTS = [
     ("P14b", "C14", COL, '            self._error = str(e)\n            self._parsed = True', '            self._error = ""\n            self._parsed = True', "empty error message"),
     ("P15a", "C15", OPT, "def _strategy_recursive(\n    text_rgb: Tuple[int, int, int],", "import functools\n\n\n@functools.lru_cache(maxsize=None)\ndef _cached_steps(text_rgb):\n    return {}\n\n\ndef _strategy_recursive(\n    text_rgb: Tuple[int, int, int],", "(helper only; real edit below)"),
     ("P15b", "C15", OPT, "def _strategy_recursive(\n    text_rgb: Tuple[int, int, int],\n    bg_rgb: Tuple[int, int, int],\n    large: bool,\n    target_contrast: float,\n    min_contrast: float,\n) -> Tuple[Tuple[int, int, int], bool]:", "def _strategy_recursive(\n    text_rgb: Tuple[int, int, int],\n    bg_rgb: Tuple[int, int, int],\n    large: bool,\n    target_contrast: float,\n    min_contrast: float,\n) -> Tuple[Tuple[int, int, int], bool]:\n    key = (text_rgb, bg_rgb, large)\n    if key not in _RECURSIVE_CACHE:\n        _RECURSIVE_CACHE[key] = _strategy_recursive_uncached(\n            text_rgb, bg_rgb, large, target_contrast, min_contrast\n        )\n    return _RECURSIVE_CACHE[key]\n\n\n_RECURSIVE_CACHE = {}\n\n\ndef _strategy_recursive_uncached(\n    text_rgb: Tuple[int, int, int],\n    bg_rgb: Tuple[int, int, int],\n    large: bool,\n    target_contrast: float,\n    min_contrast: float,\n) -> Tuple[Tuple[int, int, int], bool]:", "default strategy memoised on (text, bg, large), ignoring the very_readable minimum"),
+    ("P15c", "C15", OPT, "__racy_scratch__", None, "best-so-far bookkeeping of the multi-phase search moved into a module-level dict (sequentially invisible, racy under threads)"),
     ("P16a", "C16", OPT, "    if rec_success:\n        return rec_rgb, True\n", "    if rec_success and not large:\n        return rec_rgb, True\n", "relaxed mode ignores the recursive result for large text"),
     ("P16b", "C16", OPT, "            target_contrast = (\n                7.0  # Aim a bit higher (AAA) if possible, but AA is the floor\n            )", "            target_contrast = (\n                5.0  # Aim a bit higher (AAA) if possible, but AA is the floor\n            )", "ordinary requests aim at 5.0 instead of 7.0 (kept for the record: it does NOT violate C16 - a success of the very_readable request still implies one of the ordinary request - so a miss is the correct answer)"),
     ("P17a", "C17", OPT, "    accessible_text_str = rgbint_to_string(tuned_rgb)\n", "    accessible_text_str = rgbint_to_string(tuned_rgb)\n    if not success:\n        print(f\"could not reach {min_contrast}\")\n", "stray print on failure"),
@@ -90,6 +91,12 @@ def apply(wt, m):
             old, new = "'rebeccapurple': '#663399'", "'rebeccapurple': '#663398'"
     if mid == "P15a":
         return False
+    if mid == "P15c":
+        a = s.index("def generate_accessible_color(")
+        b = s.index("def _strategy_strict(")
+        body = s[a:b].replace("best_candidate", "_SCRATCH['cand']").replace("best_contrast", "_SCRATCH['contrast']").replace("best_delta_e", "_SCRATCH['de']")
+        open(path, "w", encoding="utf-8").write(s[:a] + "_SCRATCH = {}  # reused between calls\n\n\n" + body + s[b:])
+        return True
     if old is None or s.count(old) != 1:
         return False
     open(path, "w", encoding="utf-8").write(s.replace(old, new))
